@@ -2,6 +2,7 @@ package an
 
 import (
 	"fmt"
+	"regexp"
 	"sort"
 	"strings"
 )
@@ -96,6 +97,30 @@ func runC05(w *World) *Result {
 	BatchLenMonotoneRule(w, batch, r, "R-C05-lenmono")
 	r.Rule("R-C05-blockexit", "Batch: a line closing a parenthesised block that held user statements is never reached by falling through: the line before it is an unconditional goto to a label kept on the construct's stack", 3)
 	c05BlockExit(w, batch, r)
+	// echo of program text: "echo <text>" with text on / off switches command echoing and prints
+	// nothing ("echo(" is the form that prints any text)
+	r.Rule("R-C05-echo", "Batch: text computed by the program is printed with a form of echo that does not interpret it (echo on / off / empty)", 1)
+	nEcho := 0
+	seenEcho := map[string]bool{}
+	for _, l := range batch.Lines {
+		if l.Batch == nil {
+			continue
+		}
+		txt := l.Batch.Text
+		for _, m := range regexp.MustCompile(`(?i)(?:^|[(&| ])echo ([!%\x00])`).FindAllStringSubmatch(txt, -1) {
+			_ = m
+			key := "echo:batch:" + lineKey(l)
+			if seenEcho[key] {
+				continue
+			}
+			seenEcho[key] = true
+			nEcho++
+			r.Bad("R-C05-echo", key, w.Pos(l.Em.Pos), "program text is printed with \"echo <text>\": for the texts on and off cmd switches command echoing instead of printing (Bash prints the word) — "+l.Variant.String())
+		}
+	}
+	if nEcho == 0 {
+		r.Ok("R-C05-echo", "echo:batch:none", "-", "no echo of program text in the interpreting form")
+	}
 	// numcmp over all lines incl. helper bodies
 	seen := map[string]bool{}
 	for _, l := range batch.Lines {
